@@ -73,3 +73,51 @@ package digest
 //@ func NewDigestFromByteStreamWritePath
 //@   trusted
 //@   modifies nothing
+
+// ---- InstanceNameTrie (C19). Decided here without a model of the key space:
+// a lookup never loses a match it has already seen (the root's value is the
+// fallback; after that only values >= 0 of nodes on the path replace it), and
+// it never reports a node that carries no value.
+//@ extern strings.IndexByte
+//@   modifies nothing
+//@   ensures -1 <= result && result < len(s)
+//@ func (InstanceName).String
+//@   inline
+//@ func (*InstanceNameTrie).GetLongestPrefix
+//@   ensures [a-registered-ancestor-is-never-lost] result >= 0 || result == old(it.root.value)
+//@   ensures [root-prefix-always-matches] old(it.root.value) >= 0 ==> result >= 0
+//@   loop 0 invariant n != nil && (lastValue >= 0 || lastValue == old(it.root.value)) && unchanged(it.root.value)
+//@ func (*InstanceNameTrie).GetExact
+//@   ensures [no-value-no-match] result >= 0 || result == -1 || result == old(it.root.value)
+//@   loop 0 invariant n != nil && unchanged(it.root.value)
+//@ func (*InstanceNameTrie).ContainsPrefix
+//@   ensures [root-prefix-always-matches] old(it.root.value) >= 0 ==> result
+//@   loop 0 invariant n != nil
+
+// Patching instance names is a function of patcher and digest (assumed).
+//@ ufunc patchD(ref, str) str
+//@ iface InstanceNamePatcher.PatchDigest
+//@   modifies nothing
+//@   ensures result.value == patchD(self, d.value)
+
+// ---- Set.PartitionByInstanceName (C20): the partitions are built from
+// capacity-limited windows of the input, so growing a partition copies it
+// instead of overwriting the input: the input set is left untouched.
+//@ func (Set).PartitionByInstanceName
+//@   opt contents Digest Set int
+//@   ensures [input-untouched] forall k :: 0 <= k && k < len(s.digests) ==> unchanged(s.digests[k].value)
+//@   loop 0 invariant 1 <= i && i <= len(s.digests)
+//@   loop 0 invariant forall k :: 0 <= k && k < len(s.digests) ==> unchanged(s.digests[k].value)
+//@   loop 1 invariant i + 1 <= j && j <= len(s.digests) && 1 <= i
+//@   loop 1 invariant forall k :: 0 <= k && k < len(s.digests) ==> unchanged(s.digests[k].value)
+//@   loop 1 invariant len(digestsByInstanceName) >= 2 && fresh(base(digestsByInstanceName))
+//@   loop 1 invariant forall p :: 0 <= p && p < len(digestsByInstanceName) ==>
+//@         (fresh(base(digestsByInstanceName[p].digests)) || (base(digestsByInstanceName[p].digests) == base(s.digests)
+//@             && cap(digestsByInstanceName[p].digests) == len(digestsByInstanceName[p].digests)))
+
+// The chain of ancestor digests, least specific first (trusted: its
+// construction is string processing, C20): never empty.
+//@ func (Digest).GetDigestsWithParentInstanceNames
+//@   trusted
+//@   modifies nothing
+//@   ensures len(result) >= 1 && fresh(base(result))
